@@ -28,7 +28,7 @@ From Anthem Require Import Syntax.Fol Syntax.Asp Sem.Domain Sem.Sat Model.Proble
   Model.StrongFull Model.ExternalFull Model.ProblemPrint Model.CliVerify
   Model.Tightness Model.PrivRec Model.Completion
   Proofs.DecomposeOk Proofs.StrongOk Proofs.StrongFullOk Proofs.ExternalOk Proofs.C19Ext Proofs.C19ExtFull
-  Proofs.CliVerifyOk.
+  Proofs.CliVerifyOk Gen.Preamble.
 From Anthem Require Model.Files Model.Cli.
 Import ListNotations.
 Open Scope list_scope.
@@ -160,4 +160,77 @@ Theorem CliVerify_C19_external :
 Proof. exact cli_c19_external. Qed.
 Print Assumptions CliVerify_C19_external.
 
-(* EXAMPLES *)
+(* ---------------- 3. examples (vm_compute, exact bytes; the same cases are in corpus/cli_verify.txt,
+   where the real binary must give the same files) ---------------- *)
+Definition lf (s : string) : string := s ++ nl.
+(* b.lp = `p :- not not q.`, a.lp = `p :- q.`: inside the directory `d` (walked in name order: a.lp is the
+   left program) or as the two arguments `b.lp a.lp` (argument order: b.lp is the left program) *)
+Definition ex_args (directory : bool) : list cnode :=
+  let b := CFile "b.lp" (lf "p :- not not q.") in
+  let a := CFile "a.lp" (lf "p :- q.") in
+  if directory then [CDir "d" [b; a; CFile "notes.txt" "x"]] else [b; a].
+(* anthem verify --equivalence strong --direction forward [--no-simplify] --no-proof-search --save-problems out .. *)
+Definition ex_argv (no_simplify : bool) : verify_argv :=
+  mkargv Strong None (Some DForward) None false no_simplify false true (Some "out") [].
+Definition ex_head : string :=
+  preamble_text ++ lf "tff(predicate_0, type, hp: $o)." ++ lf "tff(predicate_1, type, tp: $o)."
+  ++ lf "tff(predicate_2, type, hq: $o)." ++ lf "tff(predicate_3, type, tq: $o)."
+  ++ lf "tff(formula_0_transition_axiom_0, axiom, hp => tp)." ++ lf "tff(formula_1_transition_axiom_1, axiom, hq => tq).".
+
+(* the default decomposition is sequential (one conjecture: `forward_0`), the files of the directory
+   take their roles in name order, the formulas are simplified *)
+Example CliVerify_example_directory :
+  run_verify_tree (ex_argv false) (ex_args true) =
+  VExit0 [] [("out/forward_0.p", ex_head ++ lf "tff(formula_2_left_0, axiom, (hq => hp) & (tq => tp))."
+                                          ++ lf "tff(formula_3_right_0, conjecture, (tq => hp) & (tq => tp)).")].
+Proof. vm_compute. reflexivity. Qed.
+(* --no-simplify: the double negation stays *)
+Example CliVerify_example_no_simplify :
+  run_verify_tree (ex_argv true) (ex_args true) =
+  VExit0 [] [("out/forward_0.p", ex_head ++ lf "tff(formula_2_left_0, axiom, (hq => hp) & (tq => tp))."
+                                          ++ lf "tff(formula_3_right_0, conjecture, ((~(~tq)) => hp) & ((~(~tq)) => tp)).")].
+Proof. vm_compute. reflexivity. Qed.
+(* explicit files: the order of the ARGUMENTS decides *)
+Example CliVerify_example_argument_order :
+  run_verify_tree (ex_argv false) (ex_args false) =
+  VExit0 [] [("out/forward_0.p", ex_head ++ lf "tff(formula_2_left_0, axiom, (tq => hp) & (tq => tp))."
+                                          ++ lf "tff(formula_3_right_0, conjecture, (hq => hp) & (tq => tp)).")].
+Proof. vm_compute. reflexivity. Qed.
+(* no right program: `main` returns Err *)
+Example CliVerify_example_missing_program :
+  run_verify_tree (ex_argv false) [CFile "a.lp" (lf "p :- q.")] = VError.
+Proof. vm_compute. reflexivity. Qed.
+(* --bypass-tightness reaches the task: a non-tight program is an error without it, a warning with it *)
+Definition nt_args : list cnode :=
+  [CFile "a.lp" (lf "p :- p."); CFile "b.lp" (lf "p."); CFile "u.ug" (lf "output: p/0.")].
+Definition nt_argv (bypass : bool) : verify_argv := mkargv External None None None bypass false false true None [].
+Example CliVerify_example_bypass_tightness :
+  run_verify_tree (nt_argv false) nt_args = VError /\
+  run_verify_tree (nt_argv true) nt_args = VExit0 [WNonTightProgram] [].
+Proof. split; vm_compute; reflexivity. Qed.
+
+(* non-vacuity of CliVerify_C19_strong: the two command lines above that differ in --no-simplify are both
+   accepted, write DIFFERENT files, satisfy the clash premise, and the two files are the Display of
+   problem families refuted by the same interpretations *)
+Example CliVerify_C19_strong_nonvacuous :
+  exists problems problems' writes writes',
+    run_verify_tree (ex_argv false) (ex_args true) = VExit0 [] writes /\
+    run_verify_tree (ex_argv true) (ex_args true) = VExit0 [] writes' /\ writes <> writes' /\
+    saved_as (Some "out") problems writes /\ saved_as (Some "out") problems' writes' /\
+    forall (FI : fint) (M : pint), refutes_some FI M problems <-> refutes_some FI M problems'.
+Proof.
+  pose (read := lookup (file_system (ex_args true))).
+  pose (c := clap_parse (with_files (ex_argv false) (ex_args true))).
+  pose (c' := clap_parse (with_files (ex_argv true) (ex_args true))).
+  assert (Hclash : forall c0, c0 = c \/ c0 = c' ->
+            forall t, strong_task_described read c0 t -> no_symbol_pred_clash_full_fuel 64 t).
+  { intros c0 Hc t Ht. apply strong_task_from_files_got in Ht.
+    destruct Hc as [-> | ->]; vm_compute in Ht; injection Ht as <-;
+      apply no_symbol_pred_clash_fullb_fuel_ok; vm_compute; reflexivity. }
+  destruct (CliVerify_C19_strong read 64 c c' _ _ _ _ eq_refl ltac:(repeat split)
+              CliVerify_example_directory CliVerify_example_no_simplify
+              (Hclash c (or_introl eq_refl)) (Hclash c' (or_intror eq_refl))) as [pbs [pbs' [Hs [Hs' Hr]]]].
+  do 4 eexists. split; [exact CliVerify_example_directory|]. split; [exact CliVerify_example_no_simplify|].
+  split; [|split; [exact Hs|split; [exact Hs'|exact Hr]]].
+  vm_compute. intros H. discriminate H.
+Qed.
